@@ -23,8 +23,9 @@
 #define ASAN_UNPOISON_MEMORY_REGION(a, s) ((void)(a), (void)(s))
 #endif
 
-enum ExitClass { XC_OK = 0, XC_ILLCOND = 1, XC_SINGULAR = 2, XC_NOSPACE = 3, XC_QUERY = 4, XC_ARGERR = 5, XC_ABORT = 6, XC_HANG = 7, XC_NONE = 8 };
-static const char *const kExitName[] = {"ok", "illcond", "singular", "nospace", "query", "argerror", "abort", "hang", "none"};
+enum ExitClass { XC_OK = 0, XC_ILLCOND = 1, XC_SINGULAR = 2, XC_NOSPACE = 3, XC_QUERY = 4, XC_ARGERR = 5, XC_ABORT = 6, XC_HANG = 7, XC_NONE = 8, XC_BREAKDOWN = 9 };
+static const char *const kExitName[] = {"ok", "illcond", "singular", "nospace", "query", "argerror", "abort", "hang", "none", "ilu-breakdown"};
+extern char g_cur_op_kind[32];
 
 struct ExecCfg {
     bool chk_structure = true, chk_identity = true, chk_residual = true;
@@ -48,6 +49,7 @@ struct OpResult {
     std::vector<GrowthEvent> growth_log;
     long query_estimate = 0;
     long lwork_used = 0;
+    long slack_lusup = -1, slack_ucol = -1, slack_lsub = -1; // capacity - used at return (library allocation)
 };
 
 struct Workspace {
@@ -98,7 +100,7 @@ template <class K> struct Slot {
     double last_thresh = 1.0;
 };
 
-struct BridgeHandle { bool live = false; fptr f = 0; int n = 0; int slotmat = 0; std::vector<int_t> rowind1, colptr1; void *values = nullptr; };
+struct BridgeHandle { bool live = false; bool valid = false; fptr f = 0; int n = 0; int slotmat = 0; std::vector<int_t> rowind1, colptr1; void *values = nullptr; };
 
 template <class K> struct World {
     typedef typename K::scalar S; typedef typename K::real R;
@@ -111,7 +113,7 @@ template <class K> struct World {
     World(TaskCtx *c, const TaskPlan *p, const ExecCfg &cf) : ctx(c), plan(p), cfg(cf), slots(4), handles(4) {
         for (auto &s : slots) { memset(&s.A, 0, sizeof s.A); memset(&s.L, 0, sizeof s.L); memset(&s.U, 0, sizeof s.U); memset(&s.Glu, 0, sizeof s.Glu); }
     }
-    ~World() { for (auto &s : slots) s.ws.release(); }
+    ~World() { for (auto &s : slots) s.ws.release(); for (auto &h : handles) if (h.values) free(h.values); }
 
     // ------------------------------------------------------------ helpers
     template <class T> T *cmalloc(size_t n) { return (T *)rt_caller_malloc((n ? n : 1) * sizeof(T)); }
@@ -139,6 +141,9 @@ template <class K> struct World {
         }
     }
 
+    void adopt_values(Slot<K> &s, const Op &o) {
+        if (!o.re.empty() && (long)o.re.size() == s.nnz) { s.orig.re = o.re; s.orig.im = o.im.empty() ? std::vector<double>(o.re.size(), 0.0) : o.im; }
+    }
     void destroy_lu(Slot<K> &s) {
         if (!s.haveLU) return;
         if (s.lu_lwork == 0) { Destroy_SuperNode_Matrix(&s.L); Destroy_CompCol_Matrix(&s.U); }
@@ -233,6 +238,34 @@ template <class K> struct World {
         for (int i = n - 1; i > 0; i--) std::swap(p[i], p[(int)g.below((uint64_t)i + 1)]);
     }
 
+    static std::string print_matrix_file(const Mat &M, const std::string &fmt) {
+        std::string t; char b[256];
+        if (fmt == "hb") {
+            int nnz = M.nnz(); int nval = K::cplx ? 2 * nnz : nnz;
+            int ptrcrd = (M.n + 1 + 7) / 8, indcrd = (nnz + 7) / 8, valcrd = (nval + 2) / 3;
+            snprintf(b, sizeof b, "%-72s%-8s\n", "simulated lifecycle matrix", "SIMKEY"); t += b;
+            snprintf(b, sizeof b, "%14d%14d%14d%14d%14d\n", ptrcrd + indcrd + valcrd, ptrcrd, indcrd, valcrd, 0); t += b;
+            snprintf(b, sizeof b, "%3s%11s%14d%14d%14d%14d\n", K::cplx ? "CUA" : "RUA", "", M.m, M.n, nnz, 0); t += b;
+            snprintf(b, sizeof b, "%-16s%-16s%-20s%-20s\n", "(8I10)", "(8I10)", "(3E25.16)", ""); t += b;
+            for (int j = 0; j <= M.n; j++) { snprintf(b, sizeof b, "%10d", M.colptr[j] + 1); t += b; if (j % 8 == 7 || j == M.n) t += "\n"; }
+            for (int k = 0; k < nnz; k++) { snprintf(b, sizeof b, "%10d", M.rowind[k] + 1); t += b; if (k % 8 == 7 || k == nnz - 1) t += "\n"; }
+            int cnt = 0;
+            for (int k = 0; k < nnz; k++) for (int c = 0; c < (K::cplx ? 2 : 1); c++) {
+                double v = c ? M.im[k] : M.re[k]; v = (double)(typename K::real)v;
+                snprintf(b, sizeof b, "%25.16E", v); t += b; cnt++;
+                if (cnt % 3 == 0 || cnt == nval) t += "\n";
+            }
+        } else { // Matrix Market coordinate
+            snprintf(b, sizeof b, "%%%%MatrixMarket matrix coordinate %s general\n%% simulated lifecycle matrix\n%d %d %d\n", K::cplx ? "complex" : "real", M.m, M.n, M.nnz()); t += b;
+            for (int j = 0; j < M.n; j++) for (int k = M.colptr[j]; k < M.colptr[j + 1]; k++) {
+                double re = (double)(typename K::real)M.re[k], im = (double)(typename K::real)M.im[k];
+                if (K::cplx) snprintf(b, sizeof b, "%d %d %.17g %.17g\n", M.rowind[k] + 1, j + 1, re, im); else snprintf(b, sizeof b, "%d %d %.17g\n", M.rowind[k] + 1, j + 1, re);
+                t += b;
+            }
+        }
+        return t;
+    }
+
     // ------------------------------------------------------------ operations
     void op_new(const Op &o, OpResult &r) {
         Slot<K> &s = slots[o.slot];
@@ -240,6 +273,27 @@ template <class K> struct World {
         if (o.mat < 0 || o.mat >= (int)plan->mats.size()) { r.skipped = true; r.skip_reason = "no such matrix"; return; }
         const Mat &M = plan->mats[o.mat];
         s.orig = M; s.m = M.m; s.n = M.n; s.nnz = M.nnz(); s.storage = (o.storage && M.m == M.n) ? 1 : 0;
+        if (!o.reader.empty() && M.m == M.n && s.storage == 0) {
+            // create through a matrix-file reader fed by an in-memory file (the reader allocates the three arrays)
+            std::string text = print_matrix_file(M, o.reader);
+            FILE *fp = fmemopen((void *)text.data(), text.size(), "r");
+            int rm = 0, rn = 0; int_t rnnz = 0; S *a = nullptr; int_t *asub = nullptr, *xa = nullptr;
+            rt_op_begin(ctx, (int)trace.size() - 1, o.faults);
+            if (o.reader == "hb") K::readhb(fp, &rm, &rn, &rnnz, &a, &asub, &xa); // closes fp itself
+            else { K::readMM(fp, &rm, &rn, &rnnz, &a, &asub, &xa); fclose(fp); }
+            rt_op_end(ctx);
+            if (rm != M.m || rn != M.n || rnnz != M.nnz()) { viol(r, "reader", "reader returned different dimensions"); r.cls = XC_ARGERR; return; }
+            K::Create_CompCol_Matrix(&s.A, rm, rn, rnnz, a, asub, xa, SLU_NC, K::dtype, SLU_GE);
+            // the reader may order entries inside a column differently: adopt what it returned as the slot's matrix
+            for (int j = 0; j <= rn; j++) s.orig.colptr[j] = (int)xa[j];
+            for (long k = 0; k < s.nnz; k++) { s.orig.rowind[k] = (int)asub[k]; s.orig.re[k] = (double)ScalarOps<S>::re(a[k]); s.orig.im[k] = (double)ScalarOps<S>::im(a[k]); }
+            int mm = std::max(M.m, M.n);
+            s.perm_c = cmalloc<int>(mm); s.perm_r = cmalloc<int>(mm); s.etree = cmalloc<int>(mm); s.Rs = cmalloc<R>(mm); s.Cs = cmalloc<R>(mm);
+            s.equed[0] = 'N'; s.haveA = true; s.have_pattern = false; s.haveLU = false; s.lu_valid = false; s.last_cls = XC_NONE;
+            r.cls = XC_OK;
+            if (cfg.capture) snap_A(s, r.snap, "read");
+            return;
+        }
         S *val = cmalloc<S>(s.nnz); int_t *idx = cmalloc<int_t>(s.nnz); int_t *ptr = cmalloc<int_t>((size_t)M.n + 1 + (s.storage ? M.m - M.n : 0));
         if (s.storage == 0) {
             for (long k = 0; k < s.nnz; k++) { val[k] = ScalarOps<S>::make(M.re[k], M.im[k]); idx[k] = M.rowind[k]; }
@@ -386,11 +440,19 @@ template <class K> struct World {
                 s.lu_valid = (r.cls != XC_SINGULAR) || ilu;
                 have_factors = true;
                 r.expansions = a.stat.expansions;
+                if (o.lwork == 0 && !readopt) { const SCformat *Ls = (const SCformat *)s.L.Store; const NCformat *Us = (const NCformat *)s.U.Store;
+                    if (Ls && Us && Ls->nzval_colptr && Us->colptr && Ls->rowind_colptr) { r.slack_lusup = (long)s.Glu.nzlumax - (long)Ls->nzval_colptr[n]; r.slack_ucol = (long)s.Glu.nzumax - (long)Us->colptr[n]; r.slack_lsub = (long)s.Glu.nzlmax - (long)Ls->rowind_colptr[n]; } }
             } else if (r.cls == XC_NOSPACE) {
                 drop_lu_after_nospace(s, readopt);
             }
         } else { have_factors = s.haveLU; }
         if (ilu && r.cls == XC_SINGULAR) r.cls = XC_OK; // gsisx: 0 < info <= n counts replaced zero pivots, the call succeeded
+        if (ilu && have_factors && factored_now) {
+            // incomplete LU can break down (a column without any admissible pivot candidate): the routine then reports it only
+            // through info and leaves rows unpivoted. That is the content of C15 (not claimed): such factors are set aside.
+            bool hole = false; for (int i = 0; i < n; i++) if (s.perm_r[i] < 0 || s.perm_r[i] >= n) hole = true;
+            if (hole) { r.cls = XC_BREAKDOWN; s.lu_valid = false; s.last_cls = XC_BREAKDOWN; }
+        }
 
         // ---- snapshot of every output (defined portions only) ----
         Snapshot &sn = r.snap;
@@ -410,12 +472,13 @@ template <class K> struct World {
         }
         // ---- in-run oracles ----
         std::string serr;
+        if (r.cls == XC_BREAKDOWN) serr = "ilu breakdown";
         if (have_factors && (r.cls == XC_OK || r.cls == XC_ILLCOND || r.cls == XC_SINGULAR)) {
             if (s.lu_lwork > 0) { serr = check_lu_inside_workspace(s); if (!serr.empty()) viol(r, "workspace", serr); }
             if (serr.empty() && cfg.chk_structure) {
                 bool weak = (r.cls == XC_SINGULAR && !ilu); // no property constrains the structure of a singular return
                 serr = check_structure<K>(&s.L, &s.U, n, n, weak ? nullptr : s.perm_r, weak ? nullptr : s.perm_c, ilu, caps_of(s), weak);
-                if (!serr.empty() && !weak) viol(r, "structure", serr);
+                if (!serr.empty() && !weak) viol(r, "structure:" + serr.substr(0, serr.find(' ')), serr);
                 else if (s.lu_lwork > 0) { serr = check_lu_arrays_inside_workspace(s); if (!serr.empty()) viol(r, "workspace", serr); }
             }
             if (serr.empty() && cfg.capture && (r.cls != XC_SINGULAR || ilu)) snap_lu(s, sn);
@@ -507,6 +570,7 @@ template <class K> struct World {
         if (!s.haveA || s.m != s.n) { r.skipped = true; r.skip_reason = "no square matrix in slot"; return; }
         int n = s.n;
         destroy_lu(s); s.ws.release();
+        adopt_values(s, o);
         write_values(s, s.orig.re, s.orig.im); s.equed[0] = 'N';
         DriverArgs a; memset(&a.B, 0, sizeof a.B); a.s = &s; a.o = &o; set_options(o, a.opt, false);
         a.opt.Fact = DOFACT; a.opt.Trans = NOTRANS;
@@ -531,7 +595,7 @@ template <class K> struct World {
         Snapshot &sn = r.snap; std::string serr;
         if (cfg.capture) { sn.val("info", r.cls == XC_NOSPACE ? (long)-1 : r.info); sn.val("cls", r.cls); }
         if (have) {
-            if (cfg.chk_structure) { bool weak = (r.cls == XC_SINGULAR); serr = check_structure<K>(&s.L, &s.U, n, n, weak ? nullptr : s.perm_r, weak ? nullptr : s.perm_c, false, FactorCaps(), weak); if (!serr.empty() && !weak) viol(r, "structure", serr); }
+            if (cfg.chk_structure) { bool weak = (r.cls == XC_SINGULAR); serr = check_structure<K>(&s.L, &s.U, n, n, weak ? nullptr : s.perm_r, weak ? nullptr : s.perm_c, false, FactorCaps(), weak); if (!serr.empty() && !weak) viol(r, "structure:" + serr.substr(0, serr.find(' ')), serr); }
             if (serr.empty() && cfg.capture && r.cls == XC_OK) { sn.add("perm_c", s.perm_c, n * sizeof(int)); sn.add("perm_r", s.perm_r, n * sizeof(int)); snap_lu(s, sn); snap_A(s, sn, "post"); sn.add("ops", a.stat.ops, NPHASES * sizeof(flops_t)); if (cfg.capture_clock) sn.add("utime", a.stat.utime, NPHASES * sizeof(double)); }
         }
         if (cfg.capture) sn.add("B", a.b, sizeof(S) * (size_t)a.ld * a.nrhs);
@@ -583,6 +647,7 @@ template <class K> struct World {
         if (m != n && (o.colperm == MMD_AT_PLUS_A || o.symmode)) { o.colperm = COLAMD; o.symmode = 0; }
         if (ilu && m != n) { r.skipped = true; r.skip_reason = "ILU needs square"; return; }
         destroy_lu(s);
+        adopt_values(s, o);
         write_values(s, s.orig.re, s.orig.im); s.equed[0] = 'N';
         if (o.lwork > 0) s.ws.alloc(o.lwork, o.align, o.wsgarbage, wsrng); else s.ws.release();
         PipeArgs a; memset(&a.AC, 0, sizeof a.AC); a.haveAC = false; a.s = &s; a.o = &o; a.ilu = ilu; set_options(o, a.opt, ilu); a.opt.Fact = DOFACT;
@@ -604,6 +669,8 @@ template <class K> struct World {
         s.last_cls = r.cls; s.last_thresh = o.thresh;
         if (have) { s.haveLU = true; s.lu_lwork = o.lwork; s.lu_ilu = ilu; s.lu_valid = (r.cls == XC_OK) || ilu; s.have_pattern = true; r.expansions = a.stat.expansions; }
         if (ilu && r.cls == XC_SINGULAR) r.cls = XC_OK;
+        if (ilu && have) { bool hole = false; for (int i = 0; i < m; i++) if (s.perm_r[i] < 0 || s.perm_r[i] >= m) hole = true;
+            if (hole) { r.cls = XC_BREAKDOWN; s.lu_valid = false; s.last_cls = XC_BREAKDOWN; have = false; } }
         Snapshot &sn = r.snap; std::string serr;
         if (cfg.capture) { sn.val("info", r.cls == XC_NOSPACE ? (long)-1 : r.info); sn.val("cls", r.cls); }
         if (have) {
@@ -611,7 +678,7 @@ template <class K> struct World {
             if (serr.empty() && cfg.chk_structure) {
                 bool weak = (r.cls == XC_SINGULAR && !ilu);
                 serr = check_structure<K>(&s.L, &s.U, m, n, weak ? nullptr : s.perm_r, weak ? nullptr : s.perm_c, ilu, caps_of(s), weak);
-                if (!serr.empty() && !weak) viol(r, "structure", serr);
+                if (!serr.empty() && !weak) viol(r, "structure:" + serr.substr(0, serr.find(' ')), serr);
                 else if (s.lu_lwork > 0) { serr = check_lu_arrays_inside_workspace(s); if (!serr.empty()) viol(r, "workspace", serr); }
             }
             if (serr.empty() && cfg.capture && r.cls == XC_OK) { sn.add("perm_c", s.perm_c, n * sizeof(int)); sn.add("etree", s.etree, n * sizeof(int)); sn.add("perm_r", s.perm_r, m * sizeof(int)); snap_lu(s, sn); snap_A(s, sn, "post"); sn.val("stat.expansions", a.stat.expansions); }
@@ -708,12 +775,12 @@ template <class K> struct World {
             r.steps = ctx->steps - steps0; r.escaped = esc;
             if (esc) { r.cls = esc == ESC_ABORT ? XC_ABORT : XC_HANG; dead = true; viol(r, esc == ESC_ABORT ? "abort" : "hang", ctx->abort_msg); return; }
             r.info = (long)a.info; r.cls = classify(r.info, M.n, false, false);
-            h.live = true;
+            h.live = true; h.valid = (r.info == 0); // a Fortran caller checks info before it solves with the handle
             if (memcmp(v0.data(), vals, sizeof(S) * M.nnz()) != 0 || r0 != h.rowind1 || c0 != h.colptr1) viol(r, "bridge-mutates", "factor request changed the caller's 1-based matrix arrays");
             if (h.f == 0) viol(r, "bridge-handle", "factor request returned a null handle");
             if (cfg.capture) { r.snap.val("info", r.info); }
         } else if (o.kind == "bsolve") {
-            if (!h.live) { r.skipped = true; r.skip_reason = "handle not live"; return; }
+            if (!h.live || !h.valid) { r.skipped = true; r.skip_reason = "handle not live or factorization reported info != 0"; return; }
             int n = h.n; a.iopt = 2; a.n = n; a.nnz = 0; a.nrhs = o.nrhs; a.ldb = n + o.ldpad;
             S *b = (S *)malloc(sizeof(S) * (size_t)a.ldb * std::max(1, a.nrhs)); make_rhs(o, n, a.nrhs, a.ldb, b); a.b = b;
             std::vector<S> b_in(b, b + (size_t)a.ldb * std::max(1, a.nrhs));
@@ -745,6 +812,8 @@ template <class K> struct World {
     void run_op(const Op &o) {
         trace.emplace_back();
         OpResult &r = trace.back(); r.kind = o.kind;
+        snprintf(g_cur_op_kind, sizeof g_cur_op_kind, "%s", o.kind.c_str());
+        ctx->cur_op = (int)trace.size() - 1; // harness-side allocations made before the API call belong to this operation too
         if (dead) { r.skipped = true; r.skip_reason = "task stopped after abort/hang"; return; }
         if (o.slot < 0 || o.slot >= (int)slots.size()) { r.skipped = true; r.skip_reason = "bad slot"; return; }
         if (o.kind == "new") op_new(o, r);
